@@ -316,7 +316,7 @@ func C14(c *hx.Ctx) {
 	bin := filepath.Join(c.Scratch, "verif-race")
 	build := exec.Command("go", "build", "-race", "-o", bin, "./cmd/verif")
 	build.Dir = hx.Root
-	build.Env = append(os.Environ(), "GOFLAGS=-mod=mod", "GOPROXY=off", "GOSUMDB=off", "GOTOOLCHAIN=local", "CGO_ENABLED=1")
+	build.Env = hx.GoEnv("CGO_ENABLED=1")
 	if out, err := build.CombinedOutput(); err != nil {
 		c.Inconclusive("cannot build the race-enabled worker: %v\n%.600s", err, out)
 		return
